@@ -4,7 +4,21 @@ COMMON_TB = [
     "pebble: iterators return keys in byte order; a Write of one batch is atomic (trusted, not modelled)",
 ]
 
+FNGEN = ["tools/fngen/run.sh"]
+
 PROPS = {
+    "C07": {
+        "title": "Header contradiction and fork-choice classification follow LIP-0014",
+        "level": "proof",
+        "generators": FNGEN,
+        "technique": "Lean 4 proofs over definitions regenerated from the Go source (go/ast translator fngen) + differential run of generated definitions vs real functions",
+        "design_ref": "DESIGN.md §6 C07",
+        "level_text": "AreDistinctHeadersContradicting, IsDifferentChain, the five forkChoice predicates, HeaderHasPriority and the predicate order of Executer.process are translated from the current source into Lean on every run; Lean proves for ALL headers (unbounded Nat fields): symmetry, different generators never contradict, non-contradiction <-> one header is a legitimate successor of the other, the three causes, honest generators (incl. forging lower after a switch to a better shorter chain) are never flagged, first-match window detection is complete on a chain, classification = LIP-0014 lexicographic order on (maxHeightPrevoted,height). A code change alters the generated definition and the proofs are re-run against it.",
+        "level_note": "Trusted: Lean kernel; the fngen translator (tools/fngen, ~300 lines; unsupported syntax is an error) - backed on every run by a differential test real function vs generated definition (exhaustive over small fields for header pairs, random over uint32); uint32 fields modelled as Nat (only comparisons and +1 mod 2^32 occur). Wall-clock dependent helpers of forkChoice are opaque inputs of the model.",
+        "rule": "exhaustive header pairs with fields in 0..3 (0..4 thorough) x 2 generators + random uint32 incl. boundary values for contradiction / IsDifferentChain / HeaderHasPriority / forkChoice classification; non-trivial = a batch exercising at least two distinct (op,result) kinds",
+        "trusted_base": ["tools/fngen translator (checked differentially on every run)"],
+        "assumptions": ["forkChoice wall-clock helpers are driven with slot-centred timestamps (blockTime 100000 s) so results do not depend on the second the check runs"],
+    },
     "C12": {
         "title": "Staged state store reads equal the database with staged writes applied",
         "level": "proof",
